@@ -6,6 +6,7 @@ package harness
 
 import (
 	"fmt"
+	"os"
 	"strings"
 
 	sdkmath "cosmossdk.io/math"
@@ -46,6 +47,39 @@ func subNegFixProbe() int {
 	return 0
 }
 
+// subRetFixProbe tells whether /repo already contains repo_patches/sub_wager_return_untaken.diff: on a throw-away
+// chain a subaccount pays a bet that needs no liquidity; unpatched, what the bet module does not take stays
+// with the owner.
+func subRetFixProbe() int {
+	dir, err := os.MkdirTemp("", "verif-sub-probe")
+	must(err)
+	defer os.RemoveAll(dir)
+	out := NewOut(dir)
+	e := NewEnv(1_000_000, 4)
+	w := newSubWorld(e, out, NewRng(1), -1)
+	bp := e.App.BetKeeper.GetParams(e.Ctx)
+	bp.Constraints.MinAmount = sdkmath.NewInt(5)
+	bp.Constraints.Fee = sdkmath.NewInt(1)
+	e.App.BetKeeper.SetParams(e.Ctx, bp)
+	w.k.SetParams(e.Ctx, subtypes.Params{WagerEnabled: true, DepositEnabled: true})
+	owner := e.Accts[0]
+	_, err = w.srv.Create(sdk.WrapSDKContext(e.Ctx), &subtypes.MsgCreate{Creator: e.Accts[1].String(), Owner: owner.String(),
+		LockedBalances: []subtypes.LockedBalance{{UnlockTS: uint64(e.Time + 1000), Amount: sdkmath.NewInt(100)}}})
+	must(err)
+	m := w.addMarket()
+	before := e.Bal(owner)
+	inner := bettypes.MsgWager{Creator: owner.String(), Props: &bettypes.WagerProps{UID: UID(0xc0, 1), Amount: sdkmath.NewInt(9),
+		Ticket: w.betTicket(m, 0, "1.01", owner, 0)}}
+	tk := e.Ticket(0, map[string]interface{}{"msg": inner, "mainacc_deduct_amount": sdkmath.NewInt(0), "subacc_deduct_amount": sdkmath.NewInt(9)})
+	if _, err := w.srv.Wager(sdk.WrapSDKContext(e.Ctx), &subtypes.MsgWager{Creator: owner.String(), Ticket: tk}); err != nil {
+		return 0 // the probe bet is not accepted on this tree: nothing is left with the owner either way
+	}
+	if e.Bal(owner).GT(before) {
+		return 0
+	}
+	return 1
+}
+
 func subClass(err error, panicked bool) string {
 	if err == nil {
 		return "ok"
@@ -68,7 +102,8 @@ func subClass(err error, panicked bool) string {
 		return "nothing"
 	case has("is not enabled"):
 		return "disabled"
-	case has("amount is not positive"), has("amount is greater than available"), has("amount is greater than spent"):
+	case has("amount is not positive"), has("amount is greater than available"), has("amount is greater than spent"),
+		has("is more than the withdrawn amount"):
 		return "amount"
 	case has("not enough balance in main account"):
 		return "mainbal"
@@ -744,9 +779,10 @@ func (w *subWorld) wagerOn(m *subMarket, tiny bool) {
 	wagerOk, charged := true, sdkmath.ZeroInt()
 	if cls == "ok" {
 		gain := w.balOf(owner).Sub(before[owner])
-		charged = sdkmath.NewInt(sub).Sub(gain)
+		subLoss := before[a].Sub(w.balOf(a)) // the deduction minus what the patched code sends back
+		charged = subLoss.Sub(gain)          // what left the two accounts into custody
 		g := w.ghost(a)
-		g.wagered = g.wagered.Add(sdkmath.NewInt(sub))
+		g.wagered = g.wagered.Add(subLoss)
 		g.staked = g.staked.Add(charged)
 		if gain.IsPositive() {
 			g.leaked = g.leaked.Add(gain)
@@ -817,6 +853,7 @@ func runSub(seed uint64, n int, out *Out) {
 	fixed := int(envInt("VERIF_SUB_FIXED", int64(subFixedProbe())))
 	out.Op("CFG fixed %d", fixed)
 	out.Op("CFG negfix %d", int(envInt("VERIF_SUB_NEGFIX", int64(subNegFixProbe()))))
+	out.Op("CFG retfix %d", int(envInt("VERIF_SUB_RETFIX", int64(subRetFixProbe()))))
 	nOps := int(envInt("VERIF_SUB_OPS", 60))
 	for h := 0; h < n; h++ {
 		if skipHist(h) {
